@@ -129,10 +129,14 @@ class Engine(ExprMixin, CallMixin):
         return ob
 
     def feasible(self, st, extra=None):
+        """Path pruning.  Only the quantifier-free part of the path condition is used: refuting a subset
+        of the hypotheses is sound for pruning, fast and deterministic (no instantiation heuristics);
+        a path that is infeasible for deeper reasons is kept and its obligations hold vacuously."""
         s = z3.Solver()
-        s.set("rlimit", 2000000)  # deterministic budget (not wall-clock): same paths on a loaded machine
+        s.set("rlimit", 2000000)  # deterministic budget (not wall-clock)
         for h in st.pc:
-            s.add(h)
+            if not _has_quant(h):
+                s.add(h)
         if extra is not None:
             s.add(extra)
         return s.check() != z3.unsat
@@ -1138,6 +1142,30 @@ class Engine(ExprMixin, CallMixin):
             with self.spec():
                 cond = self.truthy(self.ev(_parse(src), o.st))
             self.emit(o.st, cond, "raises-post", None, f"{o.exc}:{label}")
+
+
+_hq_cache = {}
+
+
+def _has_quant(e):
+    k = e.get_id()
+    if k in _hq_cache:
+        return _hq_cache[k]
+    seen = set()
+    stack = [e]
+    res = False
+    while stack:
+        x = stack.pop()
+        i = x.get_id()
+        if i in seen:
+            continue
+        seen.add(i)
+        if z3.is_quantifier(x):
+            res = True
+            break
+        stack.extend(x.children())
+    _hq_cache[k] = res
+    return res
 
 
 def _load(t):
